@@ -168,7 +168,7 @@ class Module(nn.Module):
 
             elif isinstance(val, float):
                 constraint = self.constraint_for_parameter_name(name)
-                if constraint is not None and not constraint.check_raw(val):
+                if constraint is not None and not constraint.check_raw(torch.as_tensor(val).to(self.__getattr__(name))):
                     raise RuntimeError(
                         "Attempting to manually set a parameter value that is out of bounds of "
                         f"its current constraints, {constraint}. "
